@@ -92,6 +92,10 @@ impl Compactor {
 	}
 
 	pub(crate) fn compact(&self) -> Result<()> {
+		#[cfg(surrealkv_verif)]
+		crate::verif::acquire_point("compact:manifest-write-lock", &|| {
+			self.options.level_manifest.try_write().is_err()
+		});
 		let levels_guard = self.options.level_manifest.write()?;
 		let choice = self.strategy.pick_levels(&levels_guard)?;
 
@@ -230,6 +234,10 @@ impl Compactor {
 		new_table: Option<Arc<Table>>,
 		guard: &mut HiddenTablesGuard,
 	) -> Result<()> {
+		#[cfg(surrealkv_verif)]
+		crate::verif::acquire_point("compact:manifest-write-lock", &|| {
+			self.options.level_manifest.try_write().is_err()
+		});
 		let mut manifest = self.options.level_manifest.write()?;
 		let _imm_guard = self.options.immutable_memtables.write();
 
